@@ -31,8 +31,15 @@ META = {
 
 def plan(tier, seed, scale):
     n = 16
-    return [{'seed': seed, 'slice': i, 'of': n, 'tier': tier, 'hashseed': 0}
-            for i in range(n)]
+    shards = [{'seed': seed, 'slice': i, 'of': n, 'tier': tier,
+               'hashseed': 0} for i in range(n)]
+    n_rand = int((16 if tier == 'quick' else 640) * scale)
+    per = 2 if tier == 'quick' else 40
+    for i in range(0, n_rand, per):
+        shards.append({'seed': seed, 'slice': 0, 'of': 1, 'tier': tier,
+                       'hashseed': (i // per) % 3, 'random': True,
+                       'first': i, 'count': min(per, n_rand - i)})
+    return shards
 
 
 def view(d):
@@ -78,10 +85,17 @@ def run_shard(spec, res):
         names = sorted(corp)
         mine = [n for i, n in enumerate(names)
                 if i % spec['of'] == spec['slice']]
-        v0 = view(d0)
-        over0 = overcommitted(d0)
+        snap_of = {}
+        if spec.get('random'):
+            corp, snap_of = faults.random_corpus(svc, spec)
+            mine = sorted(corp)
+            res.count('random_corpus_requests', len(mine))
         for name in mine:
+            base = snap_of.get(name, base)
             svc.app.restore(base)
+            d0 = svc.dump()
+            v0 = view(d0)
+            over0 = overcommitted(d0)
             watch.start()
             r0 = svc.client.send(corp[name])
             events = watch.stop()
